@@ -188,6 +188,57 @@ PROPS = {
         "technique": "Lean 4 proof (induction on positions; sorted-list rank lemmas) + exhaustive-small and random differential correspondence",
         "partial": ["convert2index compute table not modelled (exercised warm, differential)"],
     },
+    "C10": {'title': 'Copying between forests preserves the function',
+     'theorems': ['Meddly.DD.canon',
+                  'Meddly.Dump.check_sound',
+                  'Meddly.Dump.unfold_inj',
+                  'Meddly.Dump.evalFast_eq_evalChild',
+                  'Meddly.DD.apply1_eval_top',
+                  'Meddly.DD.apply1_unique',
+                  'Meddly.DD.copy_eval',
+                  'Meddly.DD.copy_red',
+                  'Meddly.DD.copy_unique',
+                  'Meddly.DD.copy_roundtrip_iff',
+                  'Meddly.DD.copy_roundtrip',
+                  'Meddly.Copy.copyMT_eval',
+                  'Meddly.Copy.copyMT_red',
+                  'Meddly.Copy.copyMT_unique',
+                  'Meddly.Copy.copyMT_roundtrip_iff',
+                  'Meddly.Copy.copyMT_roundtrip',
+                  'Meddly.Spec.copySupported_iff',
+                  'Meddly.Spec.copy_shape_mismatch',
+                  'Meddly.Spec.conv_hasKind',
+                  'Meddly.Spec.conv_roundtrip'],
+     'quick': [{'family': 'copy', 'flavor': 'plain', 'args': {}}],
+     'thorough': [{'family': 'copy', 'flavor': 'asan', 'args': {}}],
+     'leanchecker': ['MeddlyModel.Ops.Copy', 'MeddlyModel.Spec.Conv'],
+     'design_ref': 'DESIGN.md §5 C10',
+     'level_text': "Lean theorems copy_eval / copyMT_eval: the model's COPY between multi-terminal forests (unary apply with the scalar conversion Spec.conv, "
+                   'source and target shapes with any of the three reduction rules, any domain) evaluates at EVERY assignment to the converted source value; '
+                   "copy_red: the result is in the target forest's reduced form; copy_unique + DD.canon: any reduced result with that denotation (whatever "
+                   'traversal: plain, relation-node rows, cold or warm compute table) is that tree; copy_roundtrip_iff / copyMT_roundtrip: there-and-back is the '
+                   'IDENTICAL edge iff conv_back(conv(v)) = v on the range of the function, in particular for the lossless pairs (bool->*, int->int/real, '
+                   "real->real; conv_roundtrip). copySupported_iff / copy_shape_mismatch: the factory's support table (modelled branch by branch) accepts exactly "
+                   'the pairs of the same set/relation shape and refuses the others with TYPE_MISMATCH. Tie: differential runs of the real COPY over ALL ordered '
+                   'pairs of the 25 legal forest kinds of one shape (MT bool/int/real, EV+, EV*, index sets; 307 pairs exercised, pair counts in STATS), two '
+                   'distinct forests of one kind, the same forest, random policies; tables of random / constant / variable-ignoring / identity- and '
+                   'singleton-patterned / near-duplicate / truncation-to-zero functions against Spec.conv pointwise; operands re-read; copy back compared with == '
+                   'against table equality; warm-cache and post-release (handle reuse) recopies; certificates (Dump.check) of both node stores; unsupported pairs '
+                   "(other shape, other domain, both) against the support table's error code.",
+     'level_note': 'Tree-level theorems cover MT->MT only; MT<->EV+/EV*/index-set pairs are specified at table level (Spec.conv / Spec.copyImpl) and tied '
+                   "differentially, not proved (no edge-valued tree model). copy_MT's own traversal (makeRedundantsTo / makeIdentitiesTo / redirectSingleton / "
+                   "rel_node rows / compute table) is not modelled step by step: copy_unique reduces its correctness to 'result reduced + right table', which is "
+                   'what the run observes. Reals stay on an exactness-safe grid (powers of two whenever EV* is involved); int->float beyond 2^24 and EV+ long->int '
+                   'narrowing are excluded by the generator. THREE FINDINGS are steered away from by default and reproduced by fixed probe cases (edges '
+                   'RF1*/RF2*/RF3*): F-C10-1 +infinity of an EV+/index-set source through the push-down copy becomes a context-dependent finite value; F-C10-2 '
+                   'implicit zeros of an identity-reduced MT/EV* source become +infinity in an EV+ target; F-C10-3 COPY into an index-set forest (other than the '
+                   "source's own) loses +infinity and never writes the nodes' cardinality header (duplicate nodes).",
+     'technique': 'Lean 4 proof (corollaries of apply1_eval_top / apply1_red_top / DD.canon; case analysis of the factory table) + differential correspondence '
+                  'over all kind pairs with pointwise oracle, == round trips and verified certificates of both node stores',
+     'partial': ['MT<->EV and EV<->EV pairs: table-level specification only (differential), no tree-level theorem',
+                 'copy_MT traversal helpers not modelled step by step (covered through copy_unique + certificates)',
+                 'int->float exactness beyond 2^24, long->int narrowing excluded by generator',
+                 'F-C10-1/2/3 (see NOTES / known_findings proposal): generator steers away, probes reproduce']},
 }
 
 NOT_YET = {}
